@@ -117,6 +117,8 @@ type rigOpts struct {
 	// Keyring: 16-byte primary key; when set the agent's Serf runs with
 	// encryption enabled, so the key commands really change the keyring
 	Keyring []byte
+	// MutateSerf is applied to the serf configuration last
+	MutateSerf func(*serf.Config)
 	// WrapListener lets a check put its own net.Listener around the loopback
 	// listener handed to the IPC server (slow or gated connection writes)
 	WrapListener func(net.Listener) net.Listener
@@ -161,6 +163,9 @@ func newRig(o rigOpts) (*rig, error) {
 			return nil, fmt.Errorf("keyring: %w", err)
 		}
 		conf.MemberlistConfig.Keyring = kr
+	}
+	if o.MutateSerf != nil {
+		o.MutateSerf(conf)
 	}
 	aconf := agent.DefaultConfig()
 	aconf.NodeName = o.Name
